@@ -23,6 +23,16 @@ func inCertFragment(d *vdev) bool {
 	for _, b := range d.Blocks {
 		w := b.words()
 		k, n := headKind(w)
+		if k == "tgmap" && defaultTG[w[len(w)-1]] != "" {
+			return false // rules for built-in tunnel-groups: the built-in objects are not in the model
+		}
+		if k == "webvpn" {
+			for _, sx := range b.Subs {
+				if sw := strings.Fields(sx); len(sw) == 4 && sw[0] == "certificate-group-map" && defaultTG[sw[3]] != "" {
+					return false
+				}
+			}
+		}
 		switch {
 		case k == "" || k == "interface" || k == "tgmap" || k == "webvpn":
 		case k == "certmap":
@@ -386,8 +396,20 @@ func (g *gen) genCert() cfgCase {
 			}
 		case k < 28:
 			if l := rules(); len(l) > 0 {
-				a.removeBlock(Pick(r, l))
+				x := Pick(r, l)
+				a.removeBlock(x)
 				say("tunnel-group-map-rule-missing")
+				// … while webvpn still has a rule for the same map: the map is transferred anew for the tunnel-group-map rule and the
+				// webvpn rule changes its certificate map (makeEqual, changedCertMap)
+				if w := x.words(); len(w) == 4 {
+					if wb := webBlock(); wb != nil {
+						for _, sx := range wb.Subs {
+							if sw := strings.Fields(sx); len(sw) == 4 && sw[1] == w[1] {
+								say("certificate-map-of-webvpn-rule-replaced")
+							}
+						}
+					}
+				}
 			}
 		case k < 36:
 			// another index on the device: the entry of the certificate map and every rule that names it
